@@ -1990,7 +1990,7 @@ handshake_switch_codec(int dns_fd, int bits)
 
 		send_handshake_query(dns_fd, sw_codec);
 
-		read = handshake_waitdns(dns_fd, in, sizeof(in), 's', 'S', i+1);
+		read = handshake_waitdns(dns_fd, in, sizeof(in) - 1, 's', 'S', i+1);
 
 		if (read > 0) {
 			if (strncmp("BADLEN", in, 6) == 0) {
@@ -2044,7 +2044,7 @@ handshake_switch_downenc(int dns_fd)
 
 		send_handshake_query(dns_fd, sw_downenc);
 
-		read = handshake_waitdns(dns_fd, in, sizeof(in), 'o', 'O', i+1);
+		read = handshake_waitdns(dns_fd, in, sizeof(in) - 1, 'o', 'O', i+1);
 
 		if (read > 0) {
 			if (strncmp("BADLEN", in, 6) == 0) {
